@@ -504,15 +504,15 @@ theorem perFn_ok {opts : Opts} {s : Sig} {tg tg' : TraitGenerics} {tf : TraitFn}
     (mode : InputMode) (tp ip : List WherePred)
     (h : analyzeFn .selfRef opts s tg = .ok (tf, tg')) :
     (declSigOk opts.noDepsValue s (.fn tf.attrs (makeTraitFnSig tf.sig subs opts) none) &&
-     implSigOk opts.noDepsValue s (.fn [] tf.sig (some (delegatingBody mode .none tf))) &&
+     implSigOk opts.noDepsValue s (.fn tf.attrs tf.sig (some (delegatingBody mode .none tf))) &&
      predsInScope opts.noDepsValue tp s (.fn tf.attrs (makeTraitFnSig tf.sig subs opts) none) &&
-     predsInScope opts.noDepsValue ip s (.fn [] tf.sig (some (delegatingBody mode .none tf)))) = true := by
+     predsInScope opts.noDepsValue ip s (.fn tf.attrs tf.sig (some (delegatingBody mode .none tf)))) = true := by
   have hs := fnModeSpec h
   obtain ⟨m1, m2, m3, m4, m5, m6⟩ := makeTraitFnSig_fields tf.sig subs opts
   have hd := sigTypesAgree_fn h (makeTraitFnSig tf.sig subs opts) ⟨m1, m2, m3, m4, m5, m6⟩
   have hi := sigTypesAgree_fn h tf.sig ⟨rfl, rfl, rfl, rfl, rfl, rfl⟩
   have hp1 := predsInScope_ok h tp (.fn tf.attrs (makeTraitFnSig tf.sig subs opts) none) _ rfl m2
-  have hp2 := predsInScope_ok h ip (.fn [] tf.sig (some (delegatingBody mode .none tf))) _ rfl rfl
+  have hp2 := predsInScope_ok h ip (.fn tf.attrs tf.sig (some (delegatingBody mode .none tf))) _ rfl rfl
   simp only [Bool.and_eq_true]
   refine ⟨⟨⟨?_, ?_⟩, hp1⟩, hp2⟩
   · simp only [declSigOk, GenMember.sig?, hd.1, hd.2, beq_self_eq_true, Bool.and_self]
@@ -548,7 +548,7 @@ theorem T_C03_mod (v : Variant) (attr : Toks) (m : ModItemIn) (out : Out)
   simp only [expand] at h
   split at h
   · simp at h
-  · obtain ⟨items, a, fns, tg, depMode, implBlock, h0, h1, h2, _, h4, rfl⟩ := expandMod_ok h
+  · obtain ⟨items, a, fns0, fns, tg, depMode, implBlock, h0, h1, h2, hfns, _, h4, rfl⟩ := expandMod_ok h
     have him := genImplBlock_ok h4
     have hnd : ∀ s ∈ (items.filterMap BodyItem.fn?).map (·.sig), s.typeParamsDistinct = true := by
       intro s hs
@@ -559,18 +559,20 @@ theorem T_C03_mod (v : Variant) (attr : Toks) (m : ModItemIn) (out : Out)
     simp only [P_C03, Out.view, View.items, Out.inside, Out.after, mainImpl?, mainTrait?, implsOf, traitsOf,
       List.cons_append, List.nil_append, List.getLast?_singleton, List.head?_cons, Item.sourceFns, h0,
       effectiveOpts, h1, optsNoDeps]
-    have hsc := scoping_ok (v.apply a.opts) _ fns tg h2 hnd
+    have hsc := scoping_ok (v.apply a.opts) _ fns0 tg h2 hnd
       (genTraitDef (v.apply a.opts) .plain depMode m.attrs a.traitVis a.traitIdent tg {} fns .module) implBlock rfl
       (by rw [him]; rfl)
     rw [hsc, him]
-    have hz := analyzeFns_zip .selfRef (v.apply a.opts)
+    have hz := analyzeFns_zip_cfg .selfRef (v.apply a.opts)
       (fun s tf =>
         declSigOk (v.apply a.opts).noDepsValue s (.fn tf.attrs (makeTraitFnSig tf.sig m.attrs (v.apply a.opts)) none) &&
-        implSigOk (v.apply a.opts).noDepsValue s (.fn [] tf.sig (some (delegatingBody .module .none tf))) &&
+        implSigOk (v.apply a.opts).noDepsValue s (.fn tf.attrs tf.sig (some (delegatingBody .module .none tf))) &&
         predsInScope (v.apply a.opts).noDepsValue tg.preds s (.fn tf.attrs (makeTraitFnSig tf.sig m.attrs (v.apply a.opts)) none) &&
-        predsInScope (v.apply a.opts).noDepsValue (implWherePreds depMode .none fns tg) s (.fn [] tf.sig (some (delegatingBody .module .none tf))))
-      ((items.filterMap BodyItem.fn?).map (·.sig)) {} tg fns
+        predsInScope (v.apply a.opts).noDepsValue (implWherePreds depMode .none fns tg) s (.fn tf.attrs tf.sig (some (delegatingBody .module .none tf))))
+      (fun _ _ _ => rfl)
+      ((items.filterMap BodyItem.fn?).map (·.sig)) {} tg fns0 (bodyFnAttrs items)
       (fun s _ tg0 tf tg1 han => perFn_ok m.attrs .module tg.preds (implWherePreds depMode .none fns tg) han) h2
+    rw [← hfns] at hz
     obtain ⟨z1, z2, z3, z4⟩ := zipAll_and4 _ _ _ _ _ _ hz
     simp only [Bool.and_true, Bool.and_eq_true]
     simp only [genTraitDef, zipAll_map_right] at ⊢
@@ -579,8 +581,9 @@ theorem T_C03_mod (v : Variant) (attr : Toks) (m : ModItemIn) (out : Out)
 /-- the delegating method of one impl-block function -/
 theorem implBlockSig_ok {dyn : Bool} {opts : Opts} {s : Sig} {tg tg' : TraitGenerics} {tf : TraitFn}
     (hn : opts.noDepsValue = false) (hne : unraw s.ident ≠ "__impl")
-    (h : analyzeFn (if dyn then .dynamicImpl else .staticImpl) opts s tg = .ok (tf, tg')) (body : Toks) :
-    implBlockSigOk dyn s (.fn [] tf.sig (some body)) = true := by
+    (h : analyzeFn (if dyn then .dynamicImpl else .staticImpl) opts s tg = .ok (tf, tg')) (body : Toks)
+    (as : List Attr := []) :
+    implBlockSigOk dyn s (.fn as tf.sig (some body)) = true := by
   have hs := implModeSpec hn h
   obtain ⟨hgen, hc, hu, ha, hv, _⟩ := analyzeFn_fields h
   let us := (typedArgs (s.inputs.drop 1)).map FnArg.stripAttrs
@@ -615,8 +618,11 @@ theorem implBlockSig_ok {dyn : Bool} {opts : Opts} {s : Sig} {tg tg' : TraitGene
 theorem T_C03_impl (v : Variant) (attr : Toks) (m : ImplItemIn) (out : Out)
     (hid : (Item.impl m).identsOk = true) (h : expand v attr (.impl m) = .ok out) :
     P_C03 v attr (.impl m) out.view = true := by
-  obtain ⟨items, a, fns, tg, depMode, implBlock, h0, h1, h2, h3, h4, rfl⟩ := expandImpl_ok h
+  obtain ⟨items, a, fns0, fns, tg, depMode, implBlock, h0, h1, h2, hfns, h3, h4, rfl⟩ := expandImpl_ok h
+  subst hfns
   have him := genImplBlock_ok h4
+  obtain ⟨im0, h40, _, hep, het, hes, hepr⟩ := genImplBlock_attachCfg h4
+  rw [detectDepMode_attachCfg] at h3
   have hnd : (v.apply a.opts).noDepsValue = false := impl_noDepsValue h1
   have hids : ∀ f ∈ items.filterMap BodyItem.fn?, unraw f.sig.ident ≠ "__impl" := by
     have hid' : (items.filterMap BodyItem.fn?).all (fun f => identOk f.sig.ident && unraw f.sig.ident != "__impl") = true := by
@@ -625,17 +631,19 @@ theorem T_C03_impl (v : Variant) (attr : Toks) (m : ImplItemIn) (out : Out)
     have := List.all_eq_true.mp hid' f hf
     simp only [Bool.and_eq_true, bne_iff_ne] at this
     exact this.2
-  have hhdr := C07.implBlockHeader_ok (v.apply a.opts) a.dynRef hnd m.attrs m.traitPath m.selfTy _ fns tg depMode implBlock h2 h3 h4
+  have hhdr := C07.implBlockHeader_ok (v.apply a.opts) a.dynRef hnd m.attrs m.traitPath m.selfTy _ fns0 tg depMode im0 h2 h3 h40
+  rw [← hep, ← het, ← hes, ← hepr] at hhdr
   simp only [Bool.and_eq_true] at hhdr
   obtain ⟨⟨⟨hA, hB⟩, _⟩, _⟩ := hhdr
-  have hz := analyzeFns_zip (if a.dynRef then .dynamicImpl else .staticImpl) (v.apply a.opts)
+  have hz := analyzeFns_zip_cfg (if a.dynRef then .dynamicImpl else .staticImpl) (v.apply a.opts)
     (fun s tf => implBlockSigOk a.dynRef s
-      (.fn [] tf.sig (some (delegatingBody .implBlock (if a.dynRef then .dynamic m.selfTy else .static_ m.selfTy) tf))))
-    ((items.filterMap BodyItem.fn?).map (·.sig)) {} tg fns
+      (.fn tf.attrs tf.sig (some (delegatingBody .implBlock (if a.dynRef then .dynamic m.selfTy else .static_ m.selfTy) tf))))
+    (fun _ _ _ => rfl)
+    ((items.filterMap BodyItem.fn?).map (·.sig)) {} tg fns0 (bodyFnAttrs items)
     (by
       intro s hs tg0 tf tg1 han
       obtain ⟨f, hf, rfl⟩ := List.mem_map.mp hs
-      exact implBlockSig_ok hnd (hids f hf) han _)
+      exact implBlockSig_ok hnd (hids f hf) han _ tf.attrs)
     h2
   simp only [P_C03, h1, Out.view, View.items, Out.inside, Out.after, mainImpl?, implsOf, List.nil_append,
     List.getLast?_singleton, Item.sourceFns, h0, Bool.and_eq_true]
